@@ -26,7 +26,7 @@ META = {
 META['explanation'] += ' ' + 'R6: explicit rejections against the reviewed table. R7: TXT character-strings (tabulated). R8: RRSIG timestamps and DNSKEY flags through the shared primitives (tabulated). R9: fixed length integers exact for every bit length, refusal instead of truncation. R5 also tabulates the RSA modulus width for moduli that are exact powers of two, with the key size modelled as the dependency computes it. R10: a parser whose consumed length is not reported tests that nothing is left unread. Spec items name the attribute they carry.'
 META['explanation'] += ' ' + 'R11: DSA key fields (T and one common width of 64 + 8T octets) as a parse-compose-parse pipeline over primes shorter than their field; ts items of the specification carry whether all-ones means no limit.'
 
-META['explanation'] += ' ' + 'R12: DNSKEY records evaluated per algorithm (RSA, DSA incl. a prime just above a power of two, ECDSA / GOST with leading zero octets, EdDSA). R13: the length demanded up front against the shortest RDATA of the specification (min_rdata in sa/specs/dns.json). R14: compose_bytes / compose_string around the largest length the prefix holds (shared with C11.R13). R15: the string primitives convert with the codec they are given (shared with C11.R14).'
+META['explanation'] += ' ' + 'R12: DNSKEY records evaluated per algorithm (RSA, DSA incl. a prime just above a power of two, ECDSA / GOST with leading zero octets, EdDSA). R13: the length demanded up front against the shortest RDATA of the specification (min_rdata in sa/specs/dns.json). R14: compose_bytes / compose_string around the largest length the prefix holds (shared with C11.R13). R15: the string primitives convert with the codec they are given (shared with C11.R14). R16: the TXT parser evaluated over RDATA with empty character-strings at every position.'
 MODULES = {'cryptoparser.dnsrec.record'}
 HERE = os.path.dirname(os.path.dirname(os.path.abspath(__file__)))
 
@@ -54,6 +54,7 @@ def check(ctx, report):
     header_constants(ctx, report, RULE='C08.R13', scope=('cryptoparser.dnsrec.',), floor=4, spec_minimum=minimum)
     # a TXT chunk of exactly 255 octets, a label of 63: the longest string the one octet prefix holds is composed (shared with C11.R13)
     # labels are decoded with the codec the name parser names (idna): no literal codec inside the primitive (shared with C11.R14)
+    txt_strings_parsed(ctx, report)
     from .c11 import codec_as_named
     codec_as_named(ctx, report, RULE='C08.R15', title='domain name labels are decoded with the codec the caller names (idna), no literal codec inside the string primitives')
     from .c11 import length_prefixed_bytes
@@ -650,6 +651,91 @@ def dnskey_round_trip(ctx, report, rule='C08.R12'):
             report.touch(c.resolve(f))
     for side, text in sorted(ev['problems'].items()):
         report.add(rule, '%s@record[%s]' % (c.construct, side), text)
+
+
+def txt_strings_parsed(ctx, report, rule='C08.R16'):
+    """DnsRecordTxt._parse evaluated (sa.miniexec) with a model parser over RDATA made of one to three character-strings, empty
+    ones included at every position (RFC 1035 3.3.14 allows them; ``compose`` of an empty text writes one): the text is the
+    concatenation of the strings and the reported length is the whole RDATA - a loop that stops while a length octet is still
+    unread drops a trailing empty string and reports one octet too few."""
+    from ..miniexec import Evaluator, Native, NativeError, Raised, Unsupported, class_call_hook
+    report.rule(rule, 'TXT data: every character-string of the RDATA is read (empty ones included), the reported length is the whole RDATA')
+    c = ctx.model.try_cls('DnsRecordTxt')
+    f = c.resolve('_parse') if c is not None else None
+    if f is None:
+        report.error('%s: DnsRecordTxt._parse vanished' % rule)
+        return
+    report.touch(f)
+
+    class Short(NativeError):
+        pass
+    Short.__name__ = 'NotEnoughData'
+
+    class Parser(Native):
+        def __init__(self, data):
+            self.data, self.pos, self.values = bytes(data), 0, {}
+
+        @property
+        def unparsed_length(self):
+            return len(self.data) - self.pos
+
+        @property
+        def parsed_length(self):
+            return self.pos
+
+        @property
+        def unparsed(self):
+            return self.data[self.pos:]
+
+        def parse_string(self, name, item_size, encoding='ascii', converter=str):
+            if self.unparsed_length < item_size:
+                raise Short(item_size - self.unparsed_length)
+            size = int.from_bytes(self.data[self.pos:self.pos + item_size], 'big')
+            if self.unparsed_length < item_size + size:
+                raise Short(item_size + size - self.unparsed_length)
+            self.values[name] = self.data[self.pos + item_size:self.pos + item_size + size].decode(encoding)
+            self.pos += item_size + size
+
+        def __getitem__(self, name):
+            return self.values[name]
+    box = {}
+
+    def extra(node, ev):
+        d = ast.unparse(node.func)
+        if d in ('ParserBinary', 'ParserText'):
+            return Parser(ev.ev(node.args[0]))
+        if d in ('cls', 'DnsRecordTxt') and 'self' not in ev.env:
+            box['value'] = ev.ev(node.args[0]) if node.args else ev.ev(node.keywords[0].value)
+            return ('object',)
+        return NotImplemented
+    hook = class_call_hook(c, extra, ctx.model)
+
+    def s(text):
+        return bytes([len(text)]) + text.encode('ascii')
+    samples = [('', ), ('hello', ), ('hello', ''), ('', 'hello'), ('a', '', 'b'), ('', ''), ('x' * 255, ''), ('x' * 255, 'y')]
+
+    class Cls(Native):
+        _repo_class = c
+    try:
+        for strings in samples:
+            report.count(rule)
+            rdata = b''.join(s(t) for t in strings)
+            box.clear()
+            try:
+                got = Evaluator({'cls': Cls(), 'parsable': rdata}, hook, hook.name_hook_for(f.module, None)).function(f.node)
+            except (Short, Raised) as e:
+                report.add(rule, f.construct + '@strings[%s]' % '/'.join(str(len(t)) for t in strings),
+                           'RDATA of character-strings with %s octets is refused (%s)' % ([len(t) for t in strings], str(e)[:60]))
+                return
+            n = got[1] if isinstance(got, tuple) and len(got) == 2 else None
+            if box.get('value') != ''.join(strings) or n != len(rdata):
+                report.add(rule, f.construct + '@strings[%s]' % '/'.join(str(len(t)) for t in strings),
+                           'RDATA of character-strings with %s octets (%d octets): the text read has %s characters of %d and the reported length is %s' % (
+                               [len(t) for t in strings], len(rdata), len(box.get('value') or ''), len(''.join(strings)), n))
+                return
+    except (Unsupported, AttributeError, TypeError) as e:
+        report.undecided.append('%s: DnsRecordTxt._parse not evaluable: %s' % (rule, str(e)[:100]))
+    report.floor(rule, 8, 'evaluated TXT RDATA samples')
 
 
 def txt_chunks(ctx, report, rule='C08.R7'):
